@@ -1,6 +1,9 @@
 (* Correspondence cases for C19: a whole sequence of candidates offered to one
    live round through the real validateSnapshot; the model is run on the same
-   sequence. *)
+   sequence.  CSt: stateful interleavings on one live round object and its
+   Copy()s through the exported ValidateSnapshot, validateSnapshot and the
+   validate-then-add path of the cosi handlers; the model keeps no memory of
+   earlier verdicts, so every call is answered from the slot's content alone. *)
 From Coq Require Import List ZArith NArith Bool.
 Require Import Mixin.Base.Res.
 From Coq Require Export Uint63.
@@ -8,13 +11,28 @@ Require Export Mixin.Model.RoundNum Mixin.Model.RoundHash Mixin.Model.LiveRound.
 Import ListNotations.
 Open Scope N_scope.
 
+(* operations of a stateful case; i indexes the case's snapshot table *)
+Inductive op :=
+| OVal (slot i : N)                 (* exported ValidateSnapshot(s) *)
+| OValU (slot i : N) (add : bool)   (* validateSnapshot(s, add) *)
+| OAdd (slot i : N)                 (* ValidateSnapshot(s); when nil: validateSnapshot(s, true), index.Store *)
+| OCopy (src dst : N)               (* slots[dst] = slots[src].Copy() *)
+| ODrop (slot i : N).               (* the harness removes the member carrying snaps[i]'s hash *)
+
 Inductive case :=
 (* node, round number, candidates with their add flag, observed outcome class
    per candidate (0 ok, 1 error, 2 panic; the sequence ends at the first panic),
    observed hashes of c.Snapshots in slice order after the sequence, observed
    asFinal (start, end) *)
 | CSeq (node number : N) (cands : list (snap * bool)) (classes : list N)
-       (order : list N) (final : res (option (N * N))).
+       (order : list N) (final : res (option (N * N)))
+(* node, round number, table of snapshots, operations over round objects
+   ("slots", all empty at the start; slot 0 is the live round), observed class
+   per operation (0 ok, 1 error, 2 panic = end of the sequence, 3 = the exported
+   ValidateSnapshot passed but validateSnapshot(s,true) refused), observed hashes
+   of every slot's slice afterwards *)
+| CSt (node number : N) (snaps : list snap) (nslots : N) (ops : list op)
+      (classes : list N) (orders : list (list N)).
 
 Definition class_of {A} (r : res A) : N :=
   match r with Ok _ => 0 | Err => 1 | Panic => 2 end.
@@ -44,6 +62,56 @@ Definition opt_pair_eqb (a b : option (N * N)) : bool :=
   | _, _ => false
   end.
 
+Definition no_snap : snap := mk_snap 0 0 0 0 [].
+Definition slot_get (st : list (list snap)) (i : N) : list snap := nth (N.to_nat i) st [].
+Fixpoint set_nth (st : list (list snap)) (n : nat) (v : list snap) : list (list snap) :=
+  match st, n with
+  | [], _ => []
+  | _ :: t, O => v :: t
+  | x :: t, S n' => x :: set_nth t n' v
+  end.
+Definition slot_set (st : list (list snap)) (i : N) (v : list snap) := set_nth st (N.to_nat i) v.
+
+Definition step_op (number : N) (snaps : list snap) (st : list (list snap)) (o : op)
+  : list (list snap) * N :=
+  let sn i := nth (N.to_nat i) snaps no_snap in
+  match o with
+  | OVal slot i =>
+      let '(l', r) := validate_snapshot isort_ts number (slot_get st slot) (sn i) false in
+      (slot_set st slot l', class_of r)
+  | OValU slot i add =>
+      let '(l', r) := validate_snapshot isort_ts number (slot_get st slot) (sn i) add in
+      (slot_set st slot l', class_of r)
+  | OAdd slot i =>
+      let '(l1, r1) := validate_snapshot isort_ts number (slot_get st slot) (sn i) false in
+      match r1 with
+      | Ok _ =>
+          let '(l2, r2) := validate_snapshot isort_ts number l1 (sn i) true in
+          (slot_set st slot l2, match r2 with Ok _ => 0 | Err => 3 | Panic => 2 end)
+      | _ => (slot_set st slot l1, class_of r1)
+      end
+  | OCopy src dst => (slot_set st dst (slot_get st src), 0)
+  | ODrop slot i =>
+      (slot_set st slot (filter (fun x => negb (s_hash x =? s_hash (sn i))) (slot_get st slot)), 0)
+  end.
+
+Fixpoint run_ops (number : N) (snaps : list snap) (st : list (list snap)) (ops : list op)
+  : list N * list (list snap) :=
+  match ops with
+  | [] => ([], st)
+  | o :: t =>
+      let '(st', cl) := step_op number snaps st o in
+      if cl =? 2 then ([2], st')
+      else let '(cs, sf) := run_ops number snaps st' t in (cl :: cs, sf)
+  end.
+
+Fixpoint lists_eqb (a b : list (list N)) : bool :=
+  match a, b with
+  | [], [] => true
+  | x :: a', y :: b' => list_eqb x y && lists_eqb a' b'
+  | _, _ => false
+  end.
+
 Definition check (c : case) : bool :=
   match c with
   | CSeq node number cands classes order final =>
@@ -53,4 +121,7 @@ Definition check (c : case) : bool :=
         (rmap (option_map (fun t => (fst (fst t), snd (fst t))))
               (as_final (fun _ => 0) isort_snap node number lf))
         final
+  | CSt node number snaps nslots ops classes orders =>
+      let '(cs, sf) := run_ops number snaps (repeat [] (N.to_nat nslots)) ops in
+      list_eqb cs classes && lists_eqb (map (map s_hash) sf) orders
   end.
